@@ -432,6 +432,28 @@ impl<R: Raw> GoalSampleableRegion<R::StateType> for SimGoal<R> {
                 let s = self.draw(&mut x);
                 self.fit_comp(s, &mut x)
             }
+            GoalSampler::Reflect => {
+                let mut x = Xo::new(crate::prng::mix(self.seed, "goal", draw_no));
+                let s = self.draw(&mut x);
+                let s = self.fit_comp(s, &mut x);
+                let (mut v, t) = (enc_of::<R>(&s), enc_of::<R>(&self.target));
+                let mut off = 0;
+                for c in &self.lay {
+                    if let Comp::RV(n) = c {
+                        for i in off..off + n {
+                            v[i] = 2.0 * t[i] - v[i];
+                        }
+                    }
+                    off += c.width();
+                }
+                let r = R::dec(&self.lay, &v);
+                // the reflected state must satisfy the goal bit-robustly, like every goal sample
+                if self.inner.distance(&self.target, &r) <= 0.99 * self.radius * (1.0 + 1e-3) && self.comp_ok(&r) {
+                    r
+                } else {
+                    s
+                }
+            }
             GoalSampler::Turn => {
                 let mut x = Xo::new(crate::prng::mix(self.seed, "goal", draw_no));
                 match (&self.turn, self.inner.sample_uniform(&mut x)) {
